@@ -346,7 +346,7 @@ pub fn worker(a: WorkerArgs, out: &mut dyn Write) {
         }
         let _ = writeln!(out, "B {r}");
         let _ = out.flush();
-        let o = run::execute(a.prop, a.tier, Choices::search(run_seed(a.seed, a.prop, r)), false);
+        let o = run::execute(a.prop, a.tier, Choices::search_run(run_seed(a.seed, a.prop, r), r), false);
         if let Some(e) = &o.harness_error {
             let _ = writeln!(out, "H run {r}: {e}");
         }
@@ -707,6 +707,20 @@ pub fn check(a: CheckArgs) -> i32 {
         .with("counters", m(&tot.ints))
         .with("worker_process_aborts", J::i(crashes as i64))
         .with("profiles", J::s("3/4 of runs on the ship build (release, wrapping arithmetic), 1/4 on the chk build (overflow checks)"))
+        .with(
+            "enumerated_stratum",
+            match crate::scen::strat_space(a.prop) {
+                0 => J::s("none for this property"),
+                space => {
+                    let walked = (tot.runs / 4).min(space);
+                    J::obj()
+                        .with("what", J::s("small configurations (kind x handshake x windowsize 1,2,3,4,8 x 10 lengths x 3 tail sizes) x every position x variant, walked by run number on both builds; see scen.rs xfer_stratum"))
+                        .with("space", J::i(space as i64))
+                        .with("indices_walked_per_build", J::i(walked as i64))
+                        .with("complete", J::Bool(walked >= space))
+                }
+            },
+        )
         .with("jobs", J::i(a.jobs as i64))
         .with("known_findings_hit", J::Arr(known_hit.iter().map(|k| J::s(k.clone())).collect()))
         .with(
@@ -902,7 +916,7 @@ pub fn fingerprints(prop: &'static str, tier: Tier, seed: u64, start: u64, end: 
         if profile_of_run(r) != profile_name() {
             continue;
         }
-        let o = run::execute(prop, tier, Choices::search(run_seed(seed, prop, r)), true);
+        let o = run::execute(prop, tier, Choices::search_run(run_seed(seed, prop, r), r), true);
         let _ = writeln!(out, "F {prop} {r} {:016x}", fingerprint(&o));
     }
     crate::common::cleanup_process_sandbox();
